@@ -506,8 +506,96 @@ pub fn run_spmc(case: &Case) -> Outcome {
 // ---------------------------------------------------------------------------------------
 // removable list behind the timers (C19)
 // ---------------------------------------------------------------------------------------
+/// the protocol of the timer thread on `mpsc_list_v1` (cfg[0] == 1): the consumer drains the
+/// list with pop() and then sleeps until a push reports "the list was empty" (is_head). the
+/// head reports must identify exactly the pushes after which somebody has to look at the list
+/// again: when all producers are done and no report is outstanding, nothing may be left in
+/// the list (an entry left there would be a timer that never fires)
+fn run_list_timer(case: &Case) -> Outcome {
+    use may::queue::mpsc_list_v1::Queue;
+    const HEAD_KEY: usize = 0x48454144;
+    let mut out = Outcome::new();
+    let q = Arc::new(Queue::<(usize, usize)>::new());
+    let producers: Vec<(usize, usize)> = case.actors.iter().enumerate().filter(|(_, a)| a.role == 0).map(|(i, a)| (i, a.ops.iter().filter(|o| o.0 == PUSH).count())).collect();
+    let total: usize = producers.iter().map(|p| p.1).sum();
+    let desc: Vec<String> = case.actors.iter().map(|a| if a.role == 0 { "producer".to_string() } else { "consumer".to_string() }).collect();
+    let states = States::install(desc, opname);
+    let reports = Arc::new(AtomicUsize::new(0));
+    let done = Arc::new(AtomicUsize::new(0));
+    let mut hs = vec![];
+    for (p, (ai, n)) in producers.iter().cloned().enumerate() {
+        let (q, states, reports, done) = (q.clone(), states.clone(), reports.clone(), done.clone());
+        hs.push(sched::vspawn("producer", move || {
+            let _dg = DoneGuard(&states, ai);
+            for i in 0..n {
+                states.enter(ai, i, PUSH);
+                let (_e, is_head) = q.push((p, i));
+                if is_head {
+                    reports.fetch_add(1, Ordering::SeqCst);
+                    sched::notify(HEAD_KEY);
+                }
+            }
+            done.fetch_add(1, Ordering::SeqCst);
+            sched::notify(HEAD_KEY);
+        }));
+    }
+    let np = producers.len();
+    let mut got: Vec<(usize, usize)> = vec![];
+    let mut sleeps = 0usize;
+    loop {
+        let r = reports.load(Ordering::SeqCst);
+        while let Some(v) = q.pop() {
+            got.push(v);
+        }
+        // sleep until the next head report; the end of the last producer only ends the run
+        while reports.load(Ordering::SeqCst) == r && done.load(Ordering::SeqCst) != np {
+            sleeps += 1;
+            sched::block(HEAD_KEY, Some(sched::now_ns() + 1_000_000_000), false);
+        }
+        if reports.load(Ordering::SeqCst) == r {
+            // all producers are done and no report came after the one we served: nobody
+            // will ever tell a timer thread to look at this list again
+            break;
+        }
+    }
+    for h in hs {
+        if h.join().is_err() {
+            out.fail("producer-panicked", crate::child::LAST_PANIC.lock().unwrap().clone());
+        }
+    }
+    // nobody will tell the consumer to look again: the list has to be empty now
+    let mut stranded = vec![];
+    while let Some(v) = q.pop() {
+        stranded.push(v);
+    }
+    if !stranded.is_empty() {
+        out.fail("entries-left-without-a-head-report", format!("{} of {total} entries were still in the list after the last head report had been served: {stranded:?}", stranded.len()));
+    }
+    // exactly once, per producer order
+    let mut next: HashMap<usize, usize> = HashMap::new();
+    for (p, i) in got.iter().chain(stranded.iter()) {
+        let n = next.entry(*p).or_insert(0);
+        if *i != *n {
+            out.fail("list-order-or-exactly-once", format!("producer {p}: got entry {i}, expected {n}"));
+            break;
+        }
+        *n += 1;
+    }
+    if got.len() + stranded.len() != total {
+        out.fail("list-entry-lost-or-duplicated", format!("pushed {total}, obtained {}", got.len() + stranded.len()));
+    }
+    out.flag("timer_protocol");
+    out.flag_if(sleeps > 0, "consumer_slept_waiting_for_head_report");
+    out.flag_if(sched::preempts() > 0, "preempted");
+    out.nontrivial = sched::preempts() > 0 && sleeps > 0 && total >= 2;
+    out
+}
+
 pub fn run_list(case: &Case) -> Outcome {
     use may::queue::mpsc_list_v1::{Entry, Queue};
+    if case.cfg(0) == 1 {
+        return run_list_timer(case);
+    }
     let mut out = Outcome::new();
     let q = Arc::new(Queue::<(usize, usize)>::new());
     let producers: Vec<(usize, usize)> = case.actors.iter().enumerate().filter(|(_, a)| a.role == 0).map(|(i, a)| (i, a.ops.iter().filter(|o| o.0 == PUSH).count())).collect();
@@ -824,11 +912,11 @@ pub fn strategy_list(g: &GenCfg) -> BoxedStrategy<Case> {
         1 => Just(Op(EMPTY, 0, 0)),
         1 => Just(Op(YIELD, 0, 0)),
     ];
-    (proptest::collection::vec(prod, 1..=3), proptest::collection::vec(cop, 0..=40), gen::schedule(&g2, false))
-        .prop_map(|(prods, cons, sched)| {
+    (proptest::collection::vec(prod, 1..=3), proptest::collection::vec(cop, 0..=40), gen::schedule(&g2, false), prop_oneof![2 => Just(0i64), 1 => Just(1i64)])
+        .prop_map(|(prods, cons, sched, timer)| {
             let mut actors: Vec<Actor> = prods.into_iter().map(|ops| Actor { ctx: TH, role: 0, ops }).collect();
-            actors.push(Actor { ctx: TH, role: 1, ops: cons });
-            Case { fam: "q_list".into(), workers: 1, pool: 1, feat: 0, cfg: vec![0], actors, sched, weak: 0 }
+            actors.push(Actor { ctx: TH, role: 1, ops: if timer == 1 { vec![] } else { cons } });
+            Case { fam: "q_list".into(), workers: 1, pool: 1, feat: 0, cfg: vec![timer], actors, sched, weak: 0 }
         })
         .boxed()
 }
